@@ -29,10 +29,10 @@ from qiskit_addon_cutting.qpd.instructions import QPDMeasure
 from qiskit_addon_cutting.qpd.decompose import decompose_qpd_instructions
 
 from common import CaseWriter, Res, Raw, Zc, Opt, call_canon, coq
-from circ import CircCtx, coq_circ, coq_benv
+from circ import CircCtx, coq_circ, coq_benv, coq_basis
 
 ROOT = os.path.dirname(os.path.dirname(os.path.abspath(__file__)))
-IMPORTS = "From CKT Require Import Common.Base Common.Circ Model.Decompose Corr.C14Corr."
+IMPORTS = "From CKT Require Import Common.Base Common.Circ Model.Decompose Model.DecomposeEq Corr.C14Corr."
 
 
 # --------------------------------------------------------------------------------------
@@ -54,9 +54,9 @@ G2 = {"cx": CXGate, "cz": CZGate, "swap": SwapGate}
 
 
 def hand2(k):
-    if k == 0:
+    if k in (0, 3):
         maps = [([], [XGate()]), ([HGate(), QPDMeasure()], []), ([], []), ([Reset(), XGate()], [QPDMeasure(), ZGate()])]
-        coeffs = [0.5, 0.25, -0.25, 0.5]
+        coeffs = [0.5, 0.25, -0.25, 0.5] if k == 0 else [0.5, 0.25, 0.25, -0.5]   # 3: same maps, other coefficients
     elif k == 1:
         maps = [([], [])]
         coeffs = [1.0]
@@ -90,6 +90,31 @@ BASIS2_KEYS = [["inst", "cx", []], ["inst", "cz", []], ["inst", "swap", []], ["i
                ["inst", "rzz", [fr(0.5)]], ["inst", "rzz", [fr(0.75)]], ["hand2", 0], ["hand2", 1], ["hand2", 2]]
 BASIS1_KEYS = [["hand1", 0], ["hand1", 1]]
 LABELS = [None, None, "cut_cx_0", "cut_rzz_12", "foo", "cut_a_b"]
+
+
+class IdCtx(CircCtx):
+    """bases interned by OBJECT identity (for Model/DecomposeEq.v, which models QPDBasis.__eq__ itself)."""
+
+    def basis_id(self, basis):
+        for i, b in enumerate(self.bases):
+            if b is basis:
+                return i
+        self.bases.append(basis)
+        return len(self.bases) - 1
+
+    def canon_renv(self):
+        out = []
+        i = 0
+        while i < len(self.bases):
+            b = self.bases[i]
+            out.append(dict(nq=int(b.num_qubits), maps=self.canon_basis(b), coeffs=[fr(float(x)) for x in b.coeffs]))
+            i += 1
+        return out
+
+
+def coq_renv(renv):
+    return [Raw("(RB %d %s %s)" % (b["nq"], coq(coq_basis(b["maps"])),
+                                   coq([Raw("((%d)%%Z, %d%%positive)" % (c[0], c[1])) for c in b["coeffs"]]))) for b in renv]
 
 
 def f17_known():
@@ -186,6 +211,8 @@ def execute(desc, ids, map_ids, inplace, form="list"):
     qc, _ = build(desc)
     ctx = CircCtx()
     cin = ctx.canon_circuit(qc)
+    ctx2 = IdCtx()
+    cin_r = ctx2.canon_circuit(qc)
     snap = regs_snapshot(qc)
     nc = qc.num_clbits
     a_ids, a_maps = _form(ids, form), _form(map_ids, form)
@@ -198,6 +225,7 @@ def execute(desc, ids, map_ids, inplace, form="list"):
     if r[0] == "ok":
         out = r[1]
         impl["out"] = ctx.canon_circuit(out)
+        impl["out_r"] = ctx2.canon_circuit(out)
         reg = out.cregs[-1]
         impl["regsize"] = reg.size
         contracts["new_register_is_named_qpd_measurements"] = (reg.name == "qpd_measurements")
@@ -222,8 +250,17 @@ def execute(desc, ids, map_ids, inplace, form="list"):
             contracts["refused_call_leaves_argument_unchanged"] = unchanged
     impl["side_ok"] = bool((impl["untouched"] if not inplace else (impl.get("arg_unchanged", True) if r[0] == "refused" else True))
                            and impl["reg_ok"])
-    canon = dict(input=cin, nc=nc, benv=ctx.canon_benv())
+    canon = dict(input=cin, nc=nc, benv=ctx.canon_benv(), r=dict(input=cin_r, renv=ctx2.canon_renv()))
     return canon, impl, contracts
+
+
+def coq_case_r(canon, ids, map_ids, impl):
+    if impl["status"] == "ok":
+        exp = Res("ok", (coq_circ(impl["out_r"]), impl["regsize"]))
+    else:
+        exp = Res(impl["status"])
+    r = canon["r"]
+    return (coq_renv(r["renv"]), coq_circ(r["input"]), canon["nc"], [list(g) for g in ids], coq_maps(map_ids), exp)
 
 
 def coq_maps(map_ids):
@@ -362,6 +399,10 @@ def ph_bid(it):
     return it[2] if it[0] == "qpd2" else it[3]
 
 
+_R_COUNT = {}
+_R_EVERY = [1]   # quick tier: every second valid/omitted call is also compared with the object-handle model; thorough: all
+
+
 def emit(w, group, desc, ids, map_ids, inplace, tags, form="list"):
     canon, impl, contracts = execute(desc, ids, map_ids, inplace, form)
     for k, v in contracts.items():
@@ -378,6 +419,10 @@ def emit(w, group, desc, ids, map_ids, inplace, tags, form="list"):
         w.count(group + ".routed", "known_F17")
     else:
         w.add(group, "chk_decompose", coq_case(canon, ids, map_ids, impl), case, nontrivial=nontrivial)
+        _R_COUNT[group] = _R_COUNT.get(group, 0) + 1
+        if group == "malformed" or (group in ("valid", "omitted") and _R_COUNT[group] % _R_EVERY[0] == 0):
+            # the same call against the model with QPDBasis.__eq__ spelled out (object handles)
+            w.add(group + "__objects", "chk_decompose_r", coq_case_r(canon, ids, map_ids, impl), case, nontrivial=nontrivial)
     w.count(group + ".outcome", impl["status"])
     for k, v in tags.items():
         w.count(group + "." + k, v)
@@ -435,8 +480,10 @@ def coq_preset_case(canon, value, impl, ids):
 
 
 def generate(rng, tier, outdir):
-    w = CaseWriter(outdir, IMPORTS, case_types={"chk_decompose": "c14_case", "chk_decompose_f17": "c14_f17_case",
+    w = CaseWriter(outdir, IMPORTS, case_types={"chk_decompose": "c14_case", "chk_decompose_f17": "c14_f17_case", "chk_decompose_r": "c14_r_case",
                                                    "chk_preset": "c14_preset_case"})
+    _R_COUNT.clear()
+    _R_EVERY[0] = 2 if tier == "quick" else 1
     n_valid = 420 if tier == "quick" else 9000
     n_omit = 160 if tier == "quick" else 3000
     n_bad = 260 if tier == "quick" else 5000
@@ -476,7 +523,7 @@ def generate(rng, tier, outdir):
         others = [i for i in range(n) if i not in phs]
         mode = ["len3", "empty_group", "non_placeholder", "diff_bases", "count_less", "count_more", "maps_len",
                 "map_range", "map_negative", "map_none", "index_range", "qpd2_in_pair", "repeated_index",
-                "repeated_across"][int(rng.integers(0, 14))]
+                "repeated_across", "eq_coeffs_diff_maps", "eq_maps_diff_coeffs"][int(rng.integers(0, 16))]
         ids = [list(g) for g in ids]
         if mode == "len3":
             if len(phs) < 3:
@@ -567,6 +614,21 @@ def generate(rng, tier, outdir):
             ids[a] = [ids[a][0], ids[a][0]]   # [[p, p]] and the other placeholder left out: the count still matches
             del ids[b]
             del map_ids[b]
+        elif mode in ("eq_coeffs_diff_maps", "eq_maps_diff_coeffs"):
+            # halves of two different cuts in one group: bases that agree in the coefficient vector but not in the maps
+            # (cx / cz / cy-like), or in the maps but not in the coefficients
+            pairs = [k for k, g in enumerate(ids) if len(g) == 2]
+            if not pairs:
+                continue
+            k = pairs[int(rng.integers(0, len(pairs)))]
+            ka, kb = ((["inst", "cx", []], ["inst", "cz", []]) if mode == "eq_coeffs_diff_maps" else (["hand2", 0], ["hand2", 3]))
+            if rng.integers(0, 2):
+                ka, kb = kb, ka
+            for it, key in zip((desc["items"][ids[k][0]], desc["items"][ids[k][1]]), (ka, kb)):
+                desc["bases"].append(key)
+                it[1] = len(desc["bases"]) - 1
+                it[3] = None
+            map_ids[k] = int(rng.integers(0, 4))
         elif mode == "repeated_across":
             singles = [k for k, g in enumerate(ids) if len(g) == 1]
             if len(singles) < 2:
@@ -682,7 +744,7 @@ def generate(rng, tier, outdir):
         "a basis, possibly through equal-but-distinct QPDBasis objects / standalone SingleQubitQPDGate); bases from "
         "QPDBasis.from_instruction(cx, cz, swap, Move, rzz(1/2), rzz(3/4)) and five hand-made bases with empty op lists; group order "
         "and id order inside pairs shuffled; basis_id preset none/all/mixed; inplace False/True. Streams: valid (random in-range "
-        "map_ids), omitted (map_ids=None), malformed (14 mutation classes incl. negative / None map ids, repeated indices, 2q gate in a pair), definition_read_before (Instruction._definition cache "
+        "map_ids), omitted (map_ids=None), malformed (16 mutation classes incl. halves of two cuts whose bases agree only in coefficients or only in maps, negative / None map ids, repeated indices, 2q gate in a pair), definition_read_before (Instruction._definition cache "
         "filled before the call), preset (an in-range / too large / negative basis_id put on one placeholder through the setter or a "
         "constructor, then decompose with map_ids omitted), shared_instance (one gate object at two positions; inplace=True cases are "
         "the known finding F17 and go to a quiet group while KNOWN_FINDINGS.json lists it). One third of the circuits use several "
@@ -775,6 +837,20 @@ def judge(case):
         return judge_preset(case)
     cin, benv, nc = case["canon"]["input"], case["canon"]["benv"], case["canon"]["nc"]
     ids, maps, impl, inplace = case["ids"], case["map_ids"], case["impl"], case["inplace"]
+    robj = case["canon"].get("r")
+    if robj:
+        # handles = basis OBJECTS; equality of bases is decided here from their content (qubit count, maps, coefficients),
+        # not by the implementation's __eq__
+        cin, renv = robj["input"], robj["renv"]
+        benv = [b["maps"] for b in renv]
+        if impl.get("out_r") is not None:
+            impl = dict(impl, out=impl["out_r"])
+
+        def same_basis(a, b):
+            return renv[a] == renv[b]
+    else:
+        def same_basis(a, b):
+            return a == b
     n = len(cin)
     st = impl["status"]
     ph = [d["op"][0] in ("qpd1", "qpd2") for d in cin]
@@ -790,7 +866,7 @@ def judge(case):
         reasons.append("group length not 1 or 2")
     if any(not ph[p] for g in ids for p in g):
         reasons.append("index of a non-placeholder")
-    if not reasons and any(cin[p]["op"][1] != cin[g[0]]["op"][1] for g in ids for p in g):
+    if not reasons and any(not same_basis(cin[p]["op"][1], cin[g[0]]["op"][1]) for g in ids for p in g):
         reasons.append("differing bases in one group")
     if sum(len(g) for g in ids) != sum(ph):
         reasons.append("count mismatch")
